@@ -219,6 +219,13 @@ def _limb_ops(W, L, sg, tier):
     # bitwise operators: limb i of the result is the machine operation on limb i of the operands
     for (nm, sym) in (("and", "&"), ("or", "|"), ("xor", "^")):
         ops.append((nm, "return a %s b;" % sym, two, W, lambda cx, v, nm=nm: la.bitwise(cx, nm, v[0], v[1], L, W)))
+    # a built-in right (left) operand: the operator converts it to the multi-limb type first (sign / zero extension)
+    B = "std::int64_t" if sg else "std::uint64_t"
+    mix = [("a", W, L), ("b", 64, min(L, 64), B)]
+    bval = (lambda cx, x: la.sval(cx, x, 64)) if sg else (lambda cx, x: x)
+    ops += [("add_builtin", "return a + b;", mix, W, lambda cx, v: la.padd(v[0], bval(cx, v[1]))),
+            ("builtin_sub", "return b - a;", mix, W, lambda cx, v: la.padd(bval(cx, v[1]), v[0], -1)),
+            ("mul_builtin", "return a * b;", mix, W, lambda cx, v: la.pmul(v[0], bval(cx, v[1])))]
     # comparisons: the result is the truth value of the comparison of the mathematical (signed) values
     def val(cx, x):
         return la.sval(cx, x, W) if sg else x
@@ -251,8 +258,8 @@ def limb_rules(r, work, tier, seed):
         src += "using LT%d = cnl::wide_integer<%d, %s>;\n" % (ti, D, N)
         for (name, body, opds, RW, spec) in _limb_ops(W, L, sg, tier):
             fname = "lk%d_%s" % (ti, name)
-            src += 'extern "C" %s %s(%s) { using T = LT%d; %s }\n' % ("bool" if RW == 8 else "LT%d" % ti, fname, ", ".join("LT%d %s" % (ti, o[0]) for o in opds), ti, body)
-            plan.append((fname, "wide_integer<%d, %s>" % (D, N.replace("std::", "")), name, W, L, opds, RW, spec))
+            src += 'extern "C" %s %s(%s) { using T = LT%d; %s }\n' % ("bool" if RW == 8 else "LT%d" % ti, fname, ", ".join("%s %s" % (o[3] if len(o) > 3 else "LT%d" % ti, o[0]) for o in opds), ti, body)
+            plan.append((fname, "wide_integer<%d, %s>" % (D, N.replace("std::", "")), name, W, L, [o[:3] for o in opds], RW, spec))
     # positive control: a + b judged against a - b must be refuted with a counterexample
     src += 'extern "C" LT0 lk_control(LT0 a, LT0 b) { return a + b; }\n'
     p, out = os.path.join(work, "limb.cpp"), os.path.join(work, "limb.ll")
@@ -306,7 +313,7 @@ def limb_rules(r, work, tier, seed):
     return cnt, und, len(types)
 
 
-LIMB_FLOOR = {"quick": 216, "thorough": 2470}
+LIMB_FLOOR = {"quick": 237, "thorough": 2470}
 
 
 def run(tier, seed, work):
